@@ -156,35 +156,40 @@ def check_identity(f, rep):
     rep.floor("R04.3", "identity conversion exits (verbatim, fresh, error)", len([k for k, v in seen.items() if v]), 3)
 
 
+def version_decision(p):
+    """(greeting arm decided, peer >= mine decided, text) from the decisions of a path (the comparison may sit in a helper that
+    was looked through)."""
+    greeting_arm = False
+    cmp_ok = False
+    txt = None
+    for (e, c, _, _) in p.conds:
+        if e[0] == "discr" and c == ("eq", 0) and "Message" in str(e[2] if len(e) > 2 else "") and "Option" not in str(e[2]) and "Result" not in str(e[2]):
+            greeting_arm = True
+        t = pathq.truth(c)
+        if e[0] in ("pure", "call") and short(e[1]) in ("ge", "le", "gt", "lt") and t is not None and len(e[2]) == 2:
+            op = short(e[1])
+            a, bb = e[2]
+            a_mine = pathq.mentions_call(a, lambda x: short(x[1]) == "default") is not None
+            b_mine = pathq.mentions_call(bb, lambda x: short(x[1]) == "default") is not None
+            a_peer = not a_mine and any(isinstance(x, tuple) and x and x[0] == "field" and x[2] == "version" for x in walk_expr(a))
+            b_peer = not b_mine and any(isinstance(x, tuple) and x and x[0] == "field" and x[2] == "version" for x in walk_expr(bb))
+            txt = "%s(%s, %s) == %s" % (op, "peer" if a_peer else ("mine" if a_mine else "?"), "peer" if b_peer else ("mine" if b_mine else "?"), t)
+            if a_peer and b_mine:
+                cmp_ok = (op == "ge" and t) or (op == "lt" and not t)
+            elif a_mine and b_peer:
+                cmp_ok = (op == "le" and t) or (op == "gt" and not t)
+    return greeting_arm, cmp_ok, txt
+
+
 def check_version(f, rep):
     nv = [b for b in f.bodies if b.path.endswith("util::negotiate_version")]
-    rep.floor("R04.1", "version negotiation function", len(nv), 1)
     for b in nv:
-        oks = 0
-        for p in Sym(f).paths(b):
+        for p in pathq.paths(f, b):
             if p.end != "return" or pathq.ret_kind(p) != "Ok":
                 continue
-            oks += 1
-            greeting_arm = any(e[0] == "discr" and e[1] == ("arg", 1) and c == ("eq", 0) for (e, c, _, _) in p.conds)
-            rep.check(greeting_arm, "R04.1", "R04.1|version|greeting-arm", "version accepted only for a Greeting item", b.loc())
-            cmp_ok = False
-            txt = None
-            for (e, c, _, _) in p.conds:
-                t = pathq.truth(c)
-                if e[0] in ("pure", "call") and short(e[1]) in ("ge", "le", "gt", "lt") and t is not None and len(e[2]) == 2:
-                    op = short(e[1])
-                    a, bb = e[2]
-                    a_peer = any(isinstance(x, tuple) and x and x[0] == "arg" for x in walk_expr(a))
-                    b_peer = any(isinstance(x, tuple) and x and x[0] == "arg" for x in walk_expr(bb))
-                    a_mine = pathq.mentions_call(a, lambda x: short(x[1]) == "default") is not None
-                    b_mine = pathq.mentions_call(bb, lambda x: short(x[1]) == "default") is not None
-                    txt = "%s(%s, %s) == %s" % (op, "peer" if a_peer else ("mine" if a_mine else "?"), "peer" if b_peer else ("mine" if b_mine else "?"), t)
-                    if a_peer and b_mine:
-                        cmp_ok = (op == "ge" and t) or (op == "lt" and not t)
-                    elif a_mine and b_peer:
-                        cmp_ok = (op == "le" and t) or (op == "gt" and not t)
+            g, cmp_ok, txt = version_decision(p)
+            rep.check(g, "R04.1", "R04.1|version|greeting-arm", "version accepted only for a Greeting item", b.loc())
             rep.check(cmp_ok, "R04.1", "R04.1|version|peer-ge-mine", "version accepted only when peer >= mine (found: %s)" % txt, b.loc())
-        rep.floor("R04.1", "Ok exits of version negotiation", oks, 1)
     # greeting parser
     gp = [b for b in f.bodies if b.j.get("name") == "try_from" and (b.j.get("impl_self") or "").endswith("ZmqGreeting")]
     rep.floor("R04.1", "greeting parser", len(gp), 1)
@@ -222,12 +227,13 @@ def check_version(f, rep):
             if pathq.ret_kind(p) == "Err":
                 continue
             n += 1
-            via = p.ret[0] in ("call", "pure") and short(p.ret[1]) == "negotiate_version"
-            rep.check(via, "R04.1", "R04.1|greet-exchange|result", "the greeting exchange succeeds only with the result of version negotiation (returns %s)" % show(p.ret)[:60], b.loc())
-            if via:
-                arg = p.ret[2][0]
-                item_ok = pathq.mentions_call(arg, lambda x: short(x[1]) in ("next", "poll_next", "poll")) is not None
-                rep.check(item_ok, "R04.1", "R04.1|greet-exchange|item", "the negotiated greeting is the item read from the peer", b.loc())
+            # the exchange succeeds only through the version decision, taken on the item read from the peer - either here
+            # (helper looked through) or as the returned result of a call that takes that item
+            g, cmp_ok, txt = version_decision(p)
+            via_call = p.ret[0] in ("call", "pure") and p.ret[2] and pathq.mentions_call(p.ret[2][0], lambda x: short(x[1]) in ("next", "poll_next", "poll")) is not None
+            item_read = any(pathq.is_poll(ev) and "Next" in ev.name for ev in p.events)
+            rep.check((g and cmp_ok and item_read) or via_call, "R04.1", "R04.1|greet-exchange|result",
+                      "the greeting exchange succeeds only after `peer version >= mine` was decided on the Greeting item read from the peer (greeting arm %s, %s, item read %s)" % (g, txt, item_read), b.loc())
         rep.floor("R04.1", "non-error exits of the greeting exchange", n, 1)
 
 
